@@ -443,18 +443,38 @@ example : recoveryOk (Planar.stabilizers 3 3) s33 (Planar.identity 3 3) = false 
 example : planarCmwpmNull 3 3 = .ok (Planar.identity 3 3) := by decide +kernel
 
 /-
-  STATED, NOT PROVED: (cross-property obligations that the theorems above take as hypotheses; they belong to
-  C15 / C07 and are discharged there, not here)
+  STATED, NOT PROVED (in this file): (cross-property obligations that the theorems above take as hypotheses; they
+  belong to C15 / C07 and are discharged there, not here)
+
+  AUDIT: every item is NOW PROVED for all sizes; the theorem that discharges it is named after the arrow.
 
   * `∀ R C, 2 ≤ R → 2 ≤ C → PlanarL.Spec R C`            — Props/C15/Planar.lean: plaquetteIndices_spec,
                                                             path_syndrome_vector, virtualPlaquette_spec
+      → Props/C02/Instances.lean `planarL_spec`
   * `∀ R C, 2 ≤ R → 2 ≤ C → ToricL.Spec R C`             — C15 (toric) path/endpoint lemma, indices duplicate-free
+      → Props/C02/Instances.lean `toricL_spec` (Props/C15/Toric.lean `plaquetteIndices_spec`,
+        `path_syndrome_vector_real`)
   * `∀ R C, 3 ≤ R → 3 ≤ C → RotatedPlanarL.Spec R C`     — run-to-boundary lemma (checked above on 4×5 by the kernel)
+      → Props/C02/Instances.lean `rotatedPlanarL_spec` (Props/C07/RotatedPlanar.lean `plaquette_indices_spec`,
+        `sample_run_destabiliser`)
   * `∀ L odd, 3 ≤ L → Color666L.Spec L`                  — run-to-boundary lemma (checked above on size 5)
+      → Props/C02/Instances.lean `color666L_spec` (Props/C07/Color666.lean `plaquette_indices_spec`, `run_syndrome`)
+    and with them, hypothesis-free: Props/C02/Instances.lean `planar_sample_syndrome`, `planar_mwpm_syndrome`,
+    `planar_graph_has_pm`, `planar_mwpm_total`, `planar_cmwpm_syndrome`, `toric_mwpm_syndrome`, `toric_graph_has_pm`,
+    `rotated_planar_sample_syndrome`, `color666_sample_syndrome`
   * `toric_syndrome_even`: for every error `e`, `(toricDefects R C (synd (Toric.stabilizers R C) e) l).length % 2 = 0`
     (the product of all plaquettes of one lattice is the identity — a C07 fact)
+      → Props/C14/Chain.lean `chain_induces_matching_toric` (third conjunct; with `toricL_spec` for its `Spec`
+        hypothesis).  It is a fact about syndromes of errors, not about arbitrary bit vectors `s`, so in
+        Props/C02/Instances.lean `toric_mwpm_syndrome` / `toric_graph_has_pm` it stays a hypothesis on `s`.
   * nothing is claimed about the internals of RotatedPlanarSMWPM / RotatedToricSMWPM / PlanarY: they are explored
     through `recoveryOk` (sound by `recoveryOk_sound`), see harness/qv/props/c02.py part (b)
+      → SUPERSEDED: all three are now modelled and proved for all sizes — Props/C02/Smwpm.lean
+        `smwpm_planar_syndrome`, Props/C02/SmwpmToric.lean `smwpm_toric_syndrome` (ANY perfect matchings; existence:
+        Props/C02/SmwpmExists.lean, SmwpmExists2.lean, SmwpmEven.lean), Props/C02/PlanarY.lean /
+        Props/C02/PlanarYRest.lean `planary_sample_syndrome_all`, `planary_decode_syndrome`,
+        `planary_decode_cosets_exhaustive`.
+  Genuinely open: none of the above.
 -/
 
 end Qec.C02
